@@ -1,6 +1,7 @@
 ----------------------------- MODULE TraceBitIO -----------------------------
 (* TV mode for C01: an event is one recorded history of calls on a real reader composition *)
-(* (kind "hist") or one recorded sequence of WriteBits calls and the bytes produced ("write"). *)
+(* (kind "hist"), one recorded sequence of WriteBits calls and the bytes produced ("write"), or  *)
+(* one recorded history of interleaved calls on a real bitio.Buffer ("buffer").                  *)
 EXTENDS BitIO, Json
 Trace == ndJsonDeserialize("trace.ndjson")
 VARIABLE l
@@ -12,6 +13,9 @@ TNext == /\ l <= Len(Trace)
                  (IF e.got = e.want THEN TRUE ELSE PrintT(<<"REJECT", l, "openfile.window_differs_from_file">>))
             ELSE IF e.kind = "write"
             THEN (IF WriterOK(e.chunks, e.outbits) THEN TRUE ELSE PrintT(<<"REJECT", l, "write.output_is_not_padded_concatenation">>))
+            ELSE IF e.kind = "buffer"
+            THEN LET r == CheckBuffer(e.bops) IN
+                 IF r[1] = 0 THEN TRUE ELSE PrintT(<<"REJECT", l, r[2], r[1]>>)
             ELSE LET r == CheckHistory(e.term, e.leaves, e.ops) IN
                  IF r[1] = 0 THEN TRUE ELSE PrintT(<<"REJECT", l, e.ops[r[1]].op \o "." \o r[2], r[1]>>)
          /\ l' = l + 1
